@@ -85,35 +85,43 @@ func (r *Router) route(s Sender, p stanza.Packet) {
 	}
 }
 
-// SendMissingStz sends all stanzas that did not reach the server, according to the response to an ack request (see XEP-0198, acks)
+// SendMissingStz handles the response to an ack request (see XEP-0198, acks): lastSent is the number of stanzas
+// the server has handled on this session. The stanzas up to that rank are dropped from the queue, the others
+// are sent again in their original order, followed by a new ack request.
 func SendMissingStz(lastSent int, s Sender, uaq *stanza.UnAckQueue) error {
 	if uaq == nil {
 		// Stream management was never enabled on this session: there is nothing to resend.
 		return nil
 	}
 	uaq.RWMutex.Lock()
-	if len(uaq.Uslice) <= 0 {
-		uaq.RWMutex.Unlock()
+	// Remove the stanzas handled by the server from the queue
+	acked := 0
+	for acked < len(uaq.Uslice) && uaq.Uslice[acked].Id <= lastSent {
+		acked++
+	}
+	uaq.PopN(acked)
+	// Take the others out: sending them again puts them back, with the rank of the new transmission.
+	pending := uaq.PopN(len(uaq.Uslice))
+	uaq.RWMutex.Unlock()
+	if len(pending) == 0 {
 		return nil
 	}
-	last := uaq.Uslice[len(uaq.Uslice)-1]
-	if last.Id > lastSent {
-		// Remove sent stanzas from the queue
-		uaq.PopN(lastSent - last.Id)
-		// Re-send non acknowledged stanzas
-		for _, elt := range uaq.PopN(len(uaq.Uslice)) {
-			eltStz := elt.(*stanza.UnAckedStz)
-			err := s.SendRaw(eltStz.Stz)
-			if err != nil {
-				return err
-			}
 
+	// Re-send non acknowledged stanzas
+	for i, elt := range pending {
+		eltStz := elt.(*stanza.UnAckedStz)
+		if err := s.SendRaw(eltStz.Stz); err != nil {
+			// Keep holding what could not be sent again (SendRaw has stored the current one already)
+			uaq.RWMutex.Lock()
+			for _, rest := range pending[i+1:] {
+				uaq.Push(rest)
+			}
+			uaq.RWMutex.Unlock()
+			return err
 		}
-		// Ask for updates on stanzas we just sent to the entity. Not sure I should leave this. Maybe let users call ack again by themselves ?
-		s.Send(stanza.SMRequest{})
 	}
-	uaq.RWMutex.Unlock()
-	return nil
+	// Ask for updates on stanzas we just sent to the entity. Not sure I should leave this. Maybe let users call ack again by themselves ?
+	return s.Send(stanza.SMRequest{})
 }
 
 func iqNotImplemented(s Sender, iq *stanza.IQ) {
